@@ -10,10 +10,14 @@ var shareLists = [][]string{
 	{"lowercase"}, {"lowercase", "trim"}, {"lowercase", "trim", "length"}, {"lowercase", "trim", "hexEncode"},
 	{"uppercase"}, {"uppercase", "trim"}, {"trim"}, {"trim", "lowercase"}, {"trim", "lowercase", "length"},
 	{"removeNulls", "lowercase"}, {"removeNulls", "lowercase", "trim"}, {"length"}, {"hexEncode"}, {"hexEncode", "length"},
+	// a step that fails on most inputs (hexDecode on non-hex text leaves the value as it was): a failed step
+	// inside a shared prefix must not poison what later rules read for that prefix
+	{"hexDecode"}, {"hexDecode", "lowercase"}, {"hexDecode", "lowercase", "trim"}, {"lowercase", "hexDecode"}, {"lowercase", "hexDecode", "length"},
+	{"trim", "hexDecode"}, {"trim", "hexDecode", "uppercase"},
 }
 
 var shareNames = []string{"a", "A", "b", "c", "ab", "a", "b", ""}
-var shareValues = []string{"X1", "x1", " X1", "X2", "x2 ", "Ab", "aB", "AB ", "", "a\x00B", "Zz", "zZ"}
+var shareValues = []string{"X1", "x1", " X1", "X2", "x2 ", "Ab", "aB", "AB ", "", "a\x00B", "Zz", "zZ", "4162", "5a7A "}
 
 // ShareRequest: few names, many repeats, values differing only by case/space so that wrong sharing shows.
 func ShareRequest(r R) *sl.Req {
